@@ -315,7 +315,14 @@ func (ed *economicsData) ComputeFeeForProcessing(tx process.TransactionWithFeeHa
 
 // GasPriceForProcessing computes the price for the gas in addition to balance movement and data
 func (ed *economicsData) GasPriceForProcessing(tx process.TransactionWithFeeHandler) uint64 {
-	return uint64(float64(tx.GetGasPrice()) * ed.GasPriceModifier())
+	gasPrice := tx.GetGasPrice()
+	gasPriceForProcessing := uint64(float64(gasPrice) * ed.GasPriceModifier())
+	if gasPriceForProcessing > gasPrice {
+		// float64 rounding of a very large gas price must not raise it above the price set by the sender
+		return gasPrice
+	}
+
+	return gasPriceForProcessing
 }
 
 // GasPriceForMove returns the gas price for transferring funds
